@@ -168,7 +168,7 @@ class Histories(Part):
     rule = ("pool of 1-3 Text values built by Text()/styled/assemble/from_markup (strings include the four stripped control characters, tabs, wide and "
             "zero-width characters) + <=12 ops out of 26 kinds with raw integer offsets in [-5, 22]; after every op plain, len() and per-character "
             "effective styles are compared with the model; non-trivial = >=4 ops applied, a styled character survives, and an op removed or moved characters")
-    budget = {"quick": (8, 1500), "thorough": (16, 20000)}
+    budget = {"quick": (16, 1500), "thorough": (16, 20000)}
 
     def strategy(self, tier):
         return st.builds(lambda pool, ops: {"pool": pool, "ops": ops}, st.lists(ctor_strategy(), min_size=1, max_size=3), st.lists(op_strategy(), min_size=1, max_size=12))
